@@ -345,6 +345,9 @@ def o7(h, st):
     h.done()
 
 
+from tverif.engine import repeatable
+repeatable((AU, "get_qft_circuit"), (SV, "StateVector.initializing_circuit"), (SV, "StateVector.uncomputing_circuit"))
+
 PROPERTY = {
     "level": "other",
     "explanation": "QFT == DFT and phase-estimation certainty are proved exactly (cyclotomic arithmetic in Q(zeta_32), AST of the real circuit "
